@@ -11,7 +11,7 @@ NOT_APPLICABLE = {
     "C04": "statistical claim (expected FDP over a distribution of datasets under exchangeability): not expressible "
            "as a single-run function contract; its structural premises are decided under C01/C02/C03 (DESIGN.md 5)",
 }
-for _p in ["C02", "C03", "C05", "C06", "C08", "C09", "C14", "C15", "C16", "C18", "C20"]:
+for _p in ["C02", "C03", "C08", "C14", "C15", "C16", "C18", "C20"]:
     NOT_APPLICABLE[_p] = _PENDING
 
 CHECKS = {
@@ -135,5 +135,53 @@ CHECKS = {
                 "assumed to yield non-decreasing match ends inside the sequence; min_length >= 1",
         "technique": "sidecar contracts with three nested loop invariants, ghost witness maps and named candidate "
                      "spec functions; z3/cvc5; exhaustive short-sequence digest as bounded stand-in",
+    },
+    "C05": {
+        "category": "other",
+        "text": "Derived + bounded. Chunk independence is obtained as a corollary: the functions the streaming steps "
+                "rest on have postconditions that determine their result from the inputs alone, in which the chunk "
+                "size only positions rows, and the check verifies mechanically that no postcondition under contract "
+                "mentions a constant of mokapot/constants.py. Proved for all inputs (unbounded): create_chunks, "
+                "DataFrameReader and ParquetFileReader chunk iterators (chunk k = rows [k*c, ...), index = global "
+                "row number). Worker/thread independence and text-vs-Parquet equality are NOT within reach of the "
+                "contracts (joblib and the parsers are not modelled) and are decided by the bounded run: brew + "
+                "assign_confidence under sweeps of all chunk constants, workers, perturbed task durations, formats. "
+                "Two bounded findings (empty fold slice in a prediction chunk; order of exactly tied rows) are listed "
+                "in known_findings.json.",
+        "design_ref": "DESIGN.md 4.C05",
+        "note": "pyarrow iter_batches assumed to deliver full batches across row groups; joblib.Parallel and the "
+                "pandas/pyarrow parsers are outside the contracts",
+        "technique": "shared sidecar contracts (chunk arithmetic) + syntactic check of the postconditions; z3/cvc5; "
+                     "bounded configuration sweeps",
+    },
+    "C06": {
+        "category": "other",
+        "text": "Mostly bounded; a thin deductive part. Proved (unbounded, relative to the assumed triqler and sorting "
+                "contracts): the alignment clause of the qvality wrapper - the sort / un-sort bookkeeping returns at "
+                "input position i the PEP of scores[i] for every input order. Range, monotonicity, finiteness and the "
+                "other estimators are floating-point numerics behind scipy/triqler: no contract proves them; they are "
+                "decided by the bounded run on random mixtures (qvality, kde_nnls, qvalues_from_counts). hist_nnls "
+                "and qvalues_from_peps cannot execute under the installed SciPy. Two bounded findings on "
+                "qvalues_from_counts are listed in known_findings.json.",
+        "design_ref": "DESIGN.md 4.C06",
+        "note": "triqler.getQvaluesFromScores assumed (PEPs of the combined list in descending score order, a "
+                "function of the score value); sorting facts assumed; floats as reals",
+        "technique": "block contract on the real wrapper over assumed library contracts; z3/cvc5; bounded runs of "
+                     "the real estimators",
+    },
+    "C09": {
+        "category": "other",
+        "text": "Deductive core + bounded stand-in. Proved for an ARBITRARY initial file-system state (all histories "
+                "of earlier runs at once): the CLI verify step - afterwards the user's PIN file holds exactly the "
+                "conversion of its own former content (header, one converted line per PSM in order, DefaultDirection "
+                "dropped), independent of any pre-existing '<pin>.tsv' (ghost file system; callee contract of "
+                "pin_to_valid_tsv from C19). create_sorted_file_iterator / assign_confidence (pandas, joblib) are "
+                "decided by the bounded run: clean vs dirty destination directories with stale chunk, level and "
+                "result files, and earlier runs made to fail at every write/append/unlink call.",
+        "design_ref": "DESIGN.md 4.C09",
+        "note": "ghost file system (file = list of lines; open r/w/a; shutil.move) is an assumed model of the OS; "
+                "temporary-file discovery and cleanup in confidence.py are bounded-only",
+        "technique": "block contract with ghost file-system state on the real CLI code; z3/cvc5; fault-injection "
+                     "histories as bounded stand-in",
     },
 }
